@@ -21,6 +21,7 @@ type Knobs struct {
 	ShortWrite   int
 	SendEAGAIN   int
 	ShortRead    int
+	ErrQueueEAGAIN bool // recvmsg(MSG_ERRQUEUE) answers EAGAIN, as a TCP socket with an empty error queue does
 	RecvEAGAIN   int // a readv on a readable socket whose peer is still there reports EAGAIN once (spurious readiness)
 	ReadEINTR    int
 	EpollEINTR   int
@@ -512,7 +513,16 @@ func Getpeername(fd int) (syscall.Sockaddr, error) {
 
 func Recvmsg(fd int, p, oob []byte, flags int) (int, int, int, syscall.Sockaddr, error) {
 	simrt.Yield("sys.recvmsg", 1)
-	return syscall.Recvmsg(fd, p, oob, flags)
+	if flags&syscall.MSG_ERRQUEUE != 0 && K.ErrQueueEAGAIN {
+		// what a TCP socket answers when EPOLLERR was reported for a reset and its error queue is empty
+		// (AF_UNIX sockets, which back every descriptor here, answer differently)
+		simrt.CountFault("errqueue_eagain")
+		ev("recvmsg", fd, -1, syscall.EAGAIN, flags)
+		return 0, 0, 0, nil, syscall.EAGAIN
+	}
+	n, oobn, rf, from, err := syscall.Recvmsg(fd, p, oob, flags)
+	ev("recvmsg", fd, n, errnoOf(err), flags)
+	return n, oobn, rf, from, err
 }
 
 func Sendmsg(fd int, p, oob []byte, to syscall.Sockaddr, flags int) error {
